@@ -61,8 +61,8 @@ claimed = {
          'cookies/trailers/Content-Length as operands, normalisation off and longer values outside', "§0 C29"),
  "C30": ("ParseUint accepts exactly the digit strings that fit (all digit strings ≤20/≤24 digits, all byte strings ≤4/≤6), exact value; parseContentLength agrees; AppendUint∘ParseUint for n < 2^14/2^16; hex write/read round trip for every n < 2^60 and rejection of 16+ hex digits",
          "64-bit int only; AppendUint inverse only below 2^appendBits", "§0 C30"),
- "C31": ("IPv4 clauses: ParseIPv4 accepts exactly four dot-separated non-empty decimal fields ≤255 for every byte string of length ≤8/≤10; AppendIPv4→ParseIPv4 round trip with each octet symbolic in turn",
-         "HTTP-date and IPv6 clauses outside (time.Parse / netip not interpreted)", "§0 C31"),
+ "C31": ("IPv4 clauses: ParseIPv4 accepts exactly four dot-separated non-empty decimal fields ≤255 for every byte string of length ≤8/≤10; AppendIPv4→ParseIPv4 round trip with each octet symbolic in turn; the fast RFC 1123 date parser accepts a 29-byte input with one arbitrary byte group only if the interpreted time.Parse(http.TimeFormat) does, with the same instant; bracketed IPv6 literals built from 10 templates with a 1/2-byte arbitrary window agree with the interpreted net/netip.ParseAddr (accepted ⇒ IPv6 for netip; zone-less IPv6 for netip ⇒ accepted)",
+         "date round trip on a table of boundary instants only; several date groups symbolic at once outside", "§0 C31"),
  "C32": ("every entry of the byte-class tables equals its RFC predicate (one symbolic byte, exhaustive), header-key canonicalisation vs net/textproto on tokens ≤4 bytes, quoting and HTML-escape definitions on ≤4 bytes",
          "token/HTML lengths ≤4", "§0 C32"),
  "C33": ("PipeConns as a byte stream: every sequential history of 2/3 writes of ≤3/≤4 arbitrary bytes on one end (both directions), optionally interleaved with reads of size 1 or 8, then Close: the other end reads exactly the concatenation in order, then EOF; writes after Close fail",
